@@ -201,7 +201,7 @@ Definition the12 : list cls :=
     mkCls true false false true; mkCls false true false true; mkCls true true false true ].
 
 Lemma hooks_table :
-  map (fun k => hooks_code (effective_hooks k)) the12 = [0; 1; 0; 1; 2; 3; 2; 3; 0; 2; 0; 2].
+  map (fun k => hooks_code (effective_hooks k)) the12 = [0; 1; 0; 1; 2; 3; 2; 3; 4; 5; 4; 5].
 Proof. reflexivity. Qed.
 
 Section PickleP.
@@ -397,8 +397,8 @@ Section PickleP.
   Qed.
 
   (* ------------------------------------------------------------- the copy resolves to the same machine *)
-  Theorem same_view : forall rm rl (w w' : world) (m m' : machine),
-    wf m = true -> fresh rm rl w m = true -> guard m = true ->
+  Lemma same_view_noq : forall rm rl (w w' : world) (m m' : machine),
+    wf m = true -> fresh rm rl w m = true -> k_async (m_cls m) && m_qmodel m = false ->
     snapshot render rm rl w m = Some (w', m') ->
     resolve w' m' = normalize render (resolve w m).
   Proof.
@@ -407,9 +407,9 @@ Section PickleP.
     destruct m as [[g n l a] c q ms mctx cmap graphs qkeys].
     unfold wf in Hwf; simpl in Hwf. repeat rewrite andb_true_iff in Hwf.
     destruct Hwf as [[[[Hnd Hc] Hgr] Hq] Hla]. apply nodupb_NoDup in Hnd.
-    unfold guard in Hgd; simpl in Hgd.
+    simpl in Hgd.
     unfold all_locks in *; simpl in *.
-    assert (Hqk : qkeys = []). { apply negb_true_iff in Hgd. apply (wf_nil (a && q)); assumption. }
+    assert (Hqk : qkeys = []). { apply (wf_nil (a && q)); assumption. }
     subst qkeys.
     assert (Hmod : forall i, In i ms -> lookup (models_after rm w ms) (rm i) = lookup (w_models w) i).
     { intros i Hi. unfold models_after. apply model_copy; auto. apply Hfrm; assumption. }
@@ -434,7 +434,7 @@ Section PickleP.
       - intros l0 Hl. unfold R. apply in_or_app; auto. }
     destruct g, l; simpl in *.
     - (* locked graph class: both protocols *)
-      unfold snapshot, getstate in Hs. simpl in Hs. inversion Hs; subst; clear Hs.
+      unfold snapshot, getstate in Hs. simpl in Hs. rewrite Hgd in Hs. simpl in Hs. inversion Hs; subst; clear Hs.
       unfold setstate, setstate_gen, resolve, normalize, reach_locks, locked_store; simpl.
       rewrite locked_cmap by assumption.
       rewrite (build_nodup (fun i : ident => i)) by (rewrite map_id; assumption).
@@ -448,7 +448,7 @@ Section PickleP.
       unfold state_of; simpl. rewrite (Hmod i Hi). reflexivity.
     - (* graph class, GraphMachine hooks *)
       assert (cmap = []) by (apply (wf_nil false); auto). subst cmap. simpl in *.
-      unfold snapshot, getstate in Hs. simpl in Hs. inversion Hs; subst; clear Hs.
+      unfold snapshot, getstate in Hs. simpl in Hs. rewrite Hgd in Hs. simpl in Hs. inversion Hs; subst; clear Hs.
       unfold setstate, setstate_gen, resolve, normalize, reach_locks; simpl.
       rewrite build_nodup by (rewrite map_id; assumption).
       f_equal.
@@ -462,7 +462,7 @@ Section PickleP.
         unfold state_of; simpl. rewrite (Hmod i Hi). reflexivity.
     - (* locked class, LockedMachine hooks *)
       assert (graphs = []) by (apply (wf_nil false); auto). subst graphs.
-      unfold snapshot, getstate in Hs. simpl in Hs. inversion Hs; subst; clear Hs.
+      unfold snapshot, getstate in Hs. simpl in Hs. rewrite Hgd in Hs. simpl in Hs. inversion Hs; subst; clear Hs.
       unfold setstate, setstate_gen, resolve, normalize, reach_locks, locked_store; simpl.
       rewrite locked_cmap by assumption.
       rewrite (map_map (fun i => (i, lookup_list cmap i)) snd). simpl.
@@ -474,7 +474,7 @@ Section PickleP.
     - (* neither: default pickling of __dict__ *)
       assert (cmap = []) by (apply (wf_nil false); auto). subst cmap.
       assert (graphs = []) by (apply (wf_nil false); auto). subst graphs. simpl in *.
-      unfold snapshot, getstate in Hs. simpl in Hs. inversion Hs; subst; clear Hs.
+      unfold snapshot, getstate in Hs. simpl in Hs. rewrite Hgd in Hs. simpl in Hs. inversion Hs; subst; clear Hs.
       unfold setstate, setstate_gen, resolve, normalize, reach_locks; simpl.
       f_equal.
       + apply (locks_copy_list rl w _ (mctx ++ [])); auto.
@@ -483,6 +483,66 @@ Section PickleP.
       + rewrite !map_map. apply map_ext_in. intros i Hi.
         unfold resolve_model, norm_model; simpl.
         fold (models_after rm w ms). rewrite (Hmod i Hi). reflexivity.
+  Qed.
+
+  (* async class with queued='model': the queue table is rebuilt under the new identities (fix 9fbcaa5) *)
+  Lemma same_view_q : forall rm rl (w w' : world) (m m' : machine),
+    wf m = true -> fresh rm rl w m = true -> k_async (m_cls m) && m_qmodel m = true ->
+    forallb (fun i => nmem i (m_qkeys m)) (m_models m) = true ->
+    snapshot render rm rl w m = Some (w', m') ->
+    resolve w' m' = normalize render (resolve w m).
+  Proof.
+    intros rm rl w w' m m' Hwf Hfr Haq Hcov Hs.
+    destruct (fresh_spec _ _ _ _ Hfr) as [Hinjm [Hinjl [Hfrm Hfrl]]].
+    destruct m as [[g n l a] c q ms mctx cmap graphs qkeys].
+    unfold wf in Hwf; simpl in Hwf. repeat rewrite andb_true_iff in Hwf.
+    destruct Hwf as [[[[Hnd Hc] Hgr] Hq] Hla]. apply nodupb_NoDup in Hnd.
+    simpl in Haq, Hcov. apply andb_true_iff in Haq. destruct Haq as [Ha Hq']. subst a q.
+    destruct l; [discriminate Hla|].
+    unfold all_locks in *; simpl in *.
+    assert (cmap = []) by (apply (wf_nil false); auto). subst cmap. simpl in *.
+    rewrite forallb_forall in Hcov.
+    assert (Hmod : forall i, In i ms -> lookup (models_after rm w ms) (rm i) = lookup (w_models w) i).
+    { intros i Hi. unfold models_after. apply model_copy; auto. apply Hfrm; assumption. }
+    assert (Hnd' : NoDup (map rm ms)) by (apply NoDup_map_inj; assumption).
+    assert (Hq2 : forall i, In i ms -> nmem (rm i) (map rm ms) = true).
+    { intros i Hi. apply nmem_In. apply in_map. assumption. }
+    destruct g; simpl in *.
+    - unfold snapshot, getstate in Hs. simpl in Hs. inversion Hs; subst; clear Hs.
+      unfold setstate, setstate_gen, resolve, normalize, reach_locks; simpl.
+      rewrite build_nodup by (rewrite map_id; assumption).
+      f_equal.
+      + apply (locks_copy_list rl w _ (mctx ++ [])); auto.
+        * intros l Hl. apply Hfrl; assumption.
+        * intros l Hl. apply in_or_app; auto.
+      + rewrite !map_map. apply map_ext_in. intros i Hi.
+        unfold resolve_model, norm_model; simpl.
+        fold (models_after rm w ms). rewrite (Hmod i Hi).
+        rewrite (lookup_map_fg rm) by assumption.
+        rewrite (Hq2 i Hi), (Hcov i Hi).
+        unfold state_of; simpl. rewrite (Hmod i Hi). reflexivity.
+    - assert (graphs = []) by (apply (wf_nil false); auto). subst graphs. simpl in *.
+      unfold snapshot, getstate in Hs. simpl in Hs. inversion Hs; subst; clear Hs.
+      unfold setstate, setstate_gen, resolve, normalize, reach_locks; simpl.
+      f_equal.
+      + apply (locks_copy_list rl w _ (mctx ++ [])); auto.
+        * intros l Hl. apply Hfrl; assumption.
+        * intros l Hl. apply in_or_app; auto.
+      + rewrite !map_map. apply map_ext_in. intros i Hi.
+        unfold resolve_model, norm_model; simpl.
+        fold (models_after rm w ms). rewrite (Hmod i Hi).
+        rewrite (Hq2 i Hi), (Hcov i Hi). reflexivity.
+  Qed.
+
+  Theorem same_view : forall rm rl (w w' : world) (m m' : machine),
+    wf m = true -> fresh rm rl w m = true -> guard m = true ->
+    snapshot render rm rl w m = Some (w', m') ->
+    resolve w' m' = normalize render (resolve w m).
+  Proof.
+    intros rm rl w w' m m' Hwf Hfr Hgd Hs. unfold guard in Hgd.
+    destruct (k_async (m_cls m) && m_qmodel m) eqn:Haq.
+    - simpl in Hgd. eapply same_view_q; eauto.
+    - eapply same_view_noq; eauto.
   Qed.
 
   Corollary same_run : forall (E O : Type) (step : pview C S G -> E -> pview C S G * O)
@@ -890,11 +950,42 @@ Section PickleP.
         apply (model_copy rm w ms i); auto; apply Hfrm; assumption]]]]).
   Qed.
 
+  (* the queue invariant of the original holds for every reachable machine *)
+  Lemma guard_tab_step : forall (w : world) (m : machine) o, guard m = true -> guard (tab_step render w m o) = true.
+  Proof.
+    intros w m o Hg. unfold guard in *. destruct o as [i ctx|i]; simpl.
+    - unfold add_model. destruct (nmem i (m_models m)) eqn:Ei; [assumption|]. simpl.
+      destruct (k_async (m_cls m) && m_qmodel m); simpl in *; [|reflexivity].
+      rewrite forallb_app. simpl. rewrite andb_true_iff. split.
+      + rewrite forallb_forall in *. intros x Hx. specialize (Hg x Hx).
+        destruct (nmem i (m_qkeys m)); [assumption|]. apply nmem_In. apply in_or_app. left. apply nmem_In. assumption.
+      + destruct (nmem i (m_qkeys m)) eqn:E; [rewrite E; reflexivity|].
+        rewrite andb_true_r. apply nmem_In. apply in_or_app. right. simpl; auto.
+    - unfold remove_model.
+      destruct (k_locked (m_cls m) && negb (nmem i (keys (m_cmap m)))); [assumption|].
+      destruct (k_async (m_cls m) && m_qmodel m) eqn:Eq; simpl in *.
+      + destruct (negb (nmem i (m_qkeys m))); simpl; [rewrite Eq; assumption|].
+        destruct (negb (nmem i (m_models m))); simpl; rewrite Eq; simpl; [assumption|].
+        rewrite forallb_forall in *. intros x Hx. apply filter_In in Hx. destruct Hx as [Hx Hne].
+        apply nmem_In. apply filter_In. split; [apply nmem_In; apply Hg; assumption | assumption].
+      + destruct (negb (nmem i (m_models m))); simpl; rewrite Eq; reflexivity.
+  Qed.
+
+  Lemma guard_reachable : forall (w : world) k (c : C) q mctx (script : list tabop),
+    guard (fold_left (tab_step render w) script (init_machine k c q mctx)) = true.
+  Proof.
+    intros w k c q mctx script.
+    assert (G0 : forall s (m : machine), guard m = true -> guard (fold_left (tab_step render w) s m) = true).
+    { induction s as [|o r IH]; intros m Hm; simpl; [assumption | apply IH, guard_tab_step; assumption]. }
+    apply G0. unfold guard, init_machine; simpl. apply orb_true_r.
+  Qed.
+
   (* pickling never raises in the model: in particular not for unhashable models (fix 3c0ca68) *)
   Lemma pickles_always : forall rm rl (w : world) (m : machine),
     exists w' m', snapshot render rm rl w m = Some (w', m').
   Proof.
-    intros rm rl w m. unfold snapshot, getstate. destruct (effective_hooks (m_cls m)); eexists; eexists; reflexivity.
+    intros rm rl w m. destruct m as [[g n l a] c q ms mctx cmap graphs qkeys].
+    unfold snapshot, getstate, table_hooks. simpl. destruct g, l; eexists; eexists; reflexivity.
   Qed.
 End PickleP.
 
@@ -952,19 +1043,20 @@ Lemma ex_unhashable_pickles :
     resolve w' m' = normalize xrender (resolve xuworld xunhashable).
 Proof. repeat split; try reflexivity. eexists; eexists; repeat split; reflexivity. Qed.
 
-(* AsyncMachine(queued='model'): the queue table keeps the old integer keys *)
-Lemma ex_async_queue_stale :
-  exists (w : world nat) (m : machine nat (nat * option nat)) rm rl w' m',
-    wf m = true /\ fresh rm rl w m = true /\ snapshot xrender rm rl w m = Some (w', m') /\
-    m_models m' = [110; 111] /\ m_qkeys m' = [10; 11] /\
-    map pm_queue (pv_models (resolve w m)) = [true; true] /\
-    map pm_queue (pv_models (resolve w' m')) = [false; false].
-Proof.
-  exists xworld.
-  exists (fold_left (tab_step xrender xworld) [TAdd 10 []; TAdd 11 []]
-            (init_machine (mkCls false false false true) 7 true [])).
-  exists (xplus 100), (xplus 100). eexists; eexists. repeat split; reflexivity.
-Qed.
+(* AsyncMachine(queued='model'): the queue table is rebuilt under the new identities (fix 9fbcaa5; formerly KF-C15-3) *)
+Definition xasyncq : machine nat (nat * option nat) :=
+  fold_left (tab_step xrender xworld) [TAdd 10 []; TAdd 11 []]
+            (init_machine (mkCls false false false true) 7 true []).
+
+Lemma ex_async_queue_rekeyed :
+  wf xasyncq = true /\ fresh (xplus 100) (xplus 100) xworld xasyncq = true /\ guard xasyncq = true /\
+  m_qkeys xasyncq = [10; 11] /\
+  exists w' m', snapshot xrender (xplus 100) (xplus 100) xworld xasyncq = Some (w', m') /\
+    m_models m' = [110; 111] /\ m_qkeys m' = [110; 111] /\
+    map pm_queue (pv_models (resolve w' m')) = [true; true] /\
+    resolve w' m' = normalize xrender (resolve xworld xasyncq).
+Proof. repeat split; try reflexivity. eexists; eexists; repeat split; reflexivity. Qed.
+
 
 (* GraphMachine pickled THROUGH its first model (pickle.dumps(model)): the copy of that model gets a graph
    that styles no state as active, unlike a regenerated graph of the original *)
